@@ -24,6 +24,7 @@ pub fn generate(prop: &str, tier: &str, seed: u64) -> Vec<Vec<String>> {
         "C14n" => names::gen_names_cases("C14", tier, seed),
         "C16n" => names::gen_names_cases("C16", tier, seed),
         "C10" => robust::gen_c10(tier, seed),
+        "C11" => flwgen::gen_c11(tier, seed),
         "C04" => { let mut v = flwgen::gen_c04(tier, seed); v.extend(stdout::gen_std("C04", tier, seed)); v }
         "C06" => flwgen::gen_c06(tier, seed),
         "C07" => flwgen::gen_c07(tier, seed),
